@@ -9,6 +9,7 @@ import (
 	"os"
 	"path/filepath"
 	"sort"
+	"time"
 )
 
 // ---- deterministic PRNG (splitmix64): every random choice of a run derives from one seed ----
@@ -86,6 +87,29 @@ func (c *Ctx) Close() {
 }
 
 var commands = map[string]func(*Ctx, []string){}
+
+// Watchdog runs fn; if it does not return within d the run is a violation (hang): the
+// evidence collected so far is written and the process exits at once (the stuck goroutines
+// of the library would otherwise keep spinning).
+func (c *Ctx) Watchdog(d time.Duration, desc map[string]any, fn func()) {
+	done := make(chan bool, 1)
+	go func() { fn(); done <- true }()
+	select {
+	case <-done:
+	case <-time.After(d):
+		v := map[string]any{"what": fmt.Sprintf("no answer within %v (hang)", d)}
+		for k, x := range desc {
+			v[k] = x
+		}
+		c.Violation(v)
+		c.Stats["aborted_after_hang"] = true
+		if _, ok := c.Stats["distinct_nontrivial"]; !ok {
+			c.Stats["distinct_nontrivial"] = 0
+		}
+		c.Close()
+		os.Exit(0)
+	}
+}
 
 func main() {
 	if len(os.Args) < 2 {
